@@ -24,15 +24,17 @@ func (q QualifierIO) Unpack() (string, string) {
 // String satisfies the fmt.Stringer interface.
 func (q QualifierIO) String() string {
 	name, value := q.Unpack()
+	// A double quote inside a quoted value is written twice.
+	quoted := strings.Replace(value, "\"", "\"\"", -1)
 	switch GetQualifierType(name) {
 	case QuotedQualifier:
-		return fmt.Sprintf("/%s=\"%s\"", name, value)
+		return fmt.Sprintf("/%s=\"%s\"", name, quoted)
 	case LiteralQualifier:
 		return fmt.Sprintf("/%s=%s", name, value)
 	case ToggleQualifier:
 		return "/" + name
 	default:
-		return fmt.Sprintf("/%s=\"%s\"", name, value)
+		return fmt.Sprintf("/%s=\"%s\"", name, quoted)
 	}
 }
 
@@ -196,8 +198,43 @@ func qualifierNameParser(prefix string) pars.Parser {
 	}
 }
 
+// quotedValueParser matches a double quoted string in which a double quote is
+// escaped by doubling it, and returns the unescaped content.
+func quotedValueParser(state *pars.State, result *pars.Result) error {
+	state.Push()
+	c, err := pars.Next(state)
+	if err != nil {
+		state.Pop()
+		return err
+	}
+	if c != '"' {
+		state.Pop()
+		return pars.NewError("expected `\"`", state.Position())
+	}
+	state.Advance()
+	p := []byte{}
+	for {
+		c, err := pars.Next(state)
+		if err != nil {
+			state.Pop()
+			return err
+		}
+		state.Advance()
+		if c == '"' {
+			if d, err := pars.Next(state); err != nil || d != '"' {
+				break
+			}
+			state.Advance()
+		}
+		p = append(p, c)
+	}
+	state.Drop()
+	result.SetToken(p)
+	return nil
+}
+
 func quotedQualifierParser(prefix string) pars.Parser {
-	quoted := pars.Quoted('"')
+	quoted := pars.Parser(quotedValueParser)
 	p := append([]byte{'\n'}, []byte(prefix)...)
 	return func(state *pars.State, result *pars.Result) error {
 		state.Push()
